@@ -29,7 +29,7 @@ import numpy as np
 
 from ..common import q2s, run_driver, seed_rng, silence_stdout
 
-PROP_MODS = ['Stbem.Props.C17']
+PROP_MODS = ['Stbem.Props.C17', 'Stbem.Props.SLRestTie']
 RULE = ('correspondence: real meshes on UnitSquare / Circle / LShape / PiSquare / UnitInterval (uniform + random '
         'local refinement), rectangular test/trial sub-lists with N*M on both sides of 100, token leaves; one case = '
         'one call of the real routine on one path; distinct = distinct (curve, mesh, sub-lists, path, workers, chunk, '
@@ -38,6 +38,10 @@ RULE = ('correspondence: real meshes on UnitSquare / Circle / LShape / PiSquare 
 TRUSTED = [
     'Lean 4.33 kernel; axioms propext, Classical.choice, Quot.sound only',
     'correspondence harness harness/checks/C17.py + Lean driver parser (Driver/AsmCmd.lean)',
+    'ALL of SingleLayerOperator.bilform_matrix and MP_SL_matrix_col (defaults, threshold, hashed text and file name, np.load / '
+    'np.save in try, serial loop, pool with the chunk size of the code) regenerated from the source on every run '
+    '(translate/slrest.py -> Gen/SLRest.lean) and proved equal to computeMatrix / callStep slSpec for all inputs '
+    '(Props/SLRestTie.lean); every `asm mat` / `asm hist` request is answered by the generated method too (`asm gmat`, `asm ghist`)',
     'CPython multiprocessing (fork start method, Pool.imap / Pool.map yield results in task order; workers see the '
     'parent globals as of pool creation), numpy.save / numpy.load (load raises on anything but a complete file), '
     'hashlib.md5 — modelled (Schedule, forkView, FileState, injective hash), not verified',
@@ -55,6 +59,14 @@ ASSUMPTIONS = [
     'cache_transparent_across_configs; the unrepaired name: key_not_injective_on_config_unfixed_witness)',
     'quad_order is a non-negative int and pw_exact a bool (cfgText models str of such a tuple)',
 ]
+
+
+
+def translate(res):
+    # Gen/FormulasQ, Gen/Panels, Gen/SLRest (the generated bilform_matrix answers `asm gmat` / `asm ghist`)
+    from . import C04
+    C04.translate(res)
+
 
 WORKERS = (1, 2, 3, 7, 16)
 TOK_BASE = 4194304  # 2**22
@@ -773,6 +785,14 @@ def correspond(res, tier):
             meta.append('str((quad_order, pw_exact)) for (%d, %s)' % (q, pw))
             res.count(('cfg', q, pw), True)
 
+    # the same requests to the method REGENERATED from src/single_layer.py (Gen/SLRest.lean: bilform_matrix, MP_SL_matrix_col)
+    for i in range(len(lines)):
+        for a, b in (('asm mat ', 'asm gmat '), ('asm hist ', 'asm ghist ')):
+            if lines[i].startswith(a):
+                lines.append(b + lines[i][len(a):])
+                expect.append(expect[i])
+                meta.append('GENERATED bilform_matrix: ' + meta[i])
+                res.bump('generated_twin_requests')
     out = run_driver(lines)
     if len(out) != len(lines):
         res.broken_obligation('correspondence C17', 'driver returned %d lines for %d' % (len(out), len(lines)))
